@@ -82,7 +82,7 @@ class Ctx:
 
     # ---- finishing
     def finish(self):
-        ev_dir = os.path.join(VERIF, "evidence")
+        ev_dir = os.environ.get("VERIF_EVIDENCE_DIR") or os.path.join(VERIF, "evidence")
         os.makedirs(os.path.join(ev_dir, "replay"), exist_ok=True)
         import glob
         for old in glob.glob(os.path.join(ev_dir, "replay", f"{self.pid}-*.json")):
